@@ -195,6 +195,13 @@ func c10(tier string) int {
 			// Unknown origin: a checkpoint of a log this witness does not know.
 			cp := u.Sign(uni.Body("verif.example/unknown", 3, u.Main.Root(3)), u.K1.Signer)
 			reqs = append(reqs, wh.Req{LogID: la.ID(), CP: cp, Meta: wh.Meta{Broken: true}, Label: "unknown origin"})
+			// Origins that differ from a configured one only by spacing / case /
+			// an extra character: not configured, hence 404 - never routed to
+			// the configured log.
+			for _, near := range []string{la.Origin + " ", " " + la.Origin, strings.ToUpper(la.Origin), la.Origin + "0", la.Origin + "\r", la.Origin[:len(la.Origin)-1]} {
+				ncp := u.Sign(uni.Body(near, 3, u.Main.Root(3)), u.K1.Signer)
+				reqs = append(reqs, wh.Req{LogID: la.ID(), CP: ncp, Meta: wh.Meta{Broken: true}, Label: fmt.Sprintf("near origin %q", near)})
+			}
 			return reqs
 		}
 		st, tr := wh.Search(wh.SearchOpts{U: u, Gen: gen, Store: store, Log: la, Extra: []wh.LogCfg{lb}, AlphaFn: fn,
